@@ -27,3 +27,8 @@ VARIANTS = [
     v("c20-twin-lambda", "ws2d(temp, 0.00001, w)", "ws2d(temp, 1e-5, w)", expect="silent"),
     v("c20-twin-w", "    w = template.copy()\n", "    w = np.copy(template)\n", expect="silent", allow_error=True),
 ]
+
+VARIANTS += [
+    v("c20-contig-template", "[(int16[:], float64[:], int32[:], uint8[:], int16[:])]", "[(int16[:], float64[::1], int32[:], uint8[:], int16[:])]", names="R-LAYOUT",
+      note="a strided template view is read as if packed"),
+]
